@@ -79,6 +79,28 @@ VF_MAIN
   if (o & 1) VF_ASSERT(s.at.all == at && s.step.all == st, "an incomplete pair is rolled back: position and step unchanged by it (C16)");
 #endif
   VF_ASSERT(s.step_step.all == in_ss, "the slew increment is constant within a call");
+#elif VF_OP == 4
+  /* vr_set_io_ratio with a slew while a stage cross-fade is running: BOTH streams (fade-in: current, fade-out: fadeout) must
+   * slew to the same ratio over the same number of frames - each in its own fixed-point scale (step_mult differs by a power of two) */
+  IN_I64(in_cstep); IN_I64(in_fstep); IN_I64(in_target); IN_UINT(in_fade); IN_UINT(in_cur_fine);
+  static rate_t R; int64_t tc, tf, mc, mf;
+  VF_ASSUME(in_target > 0 && in_target < ((int64_t)1 << 40) && in_cstep > 0 && in_cstep < ((int64_t)1 << 41) && in_fstep > 0 && in_fstep < ((int64_t)1 << 41));
+  VF_ASSUME(in_fade >= 1 && in_fade < 1024);
+  mc = (in_cur_fine & 1)? 2 : 1; mf = 3 - mc;             /* the two streams read neighbouring octave stages: scales 1 and 2 */
+  VF_ASSUME(in_target * mc - in_cstep < ((int64_t)1 << VF_DIFBITS) && in_cstep - in_target * mc < ((int64_t)1 << VF_DIFBITS));
+  VF_ASSUME(in_target * mf - in_fstep < ((int64_t)1 << VF_DIFBITS) && in_fstep - in_target * mf < ((int64_t)1 << VF_DIFBITS));
+  R.current.step_mult = (double)mc; R.fadeout.step_mult = (double)mf;
+  R.current.step.all = in_cstep; R.fadeout.step.all = in_fstep; R.fade_len = (int)in_fade;
+  vr_set_io_ratio(&R, (double)in_target, (size_t)VF_SLEW);
+  tc = in_target * mc; tf = in_target * mf;
+  if (R.slew_len) {
+    int64_t ec = in_cstep + R.current.step_step.all * (int64_t)VF_SLEW - tc, ef = in_fstep + R.fadeout.step_step.all * (int64_t)VF_SLEW - tf;
+    VF_ASSERT(R.slew_len == (int)VF_SLEW && R.new_io_ratio == (double)in_target, "the slew is recorded with its length and target (C16)");
+    VF_ASSERT(ec <= (int64_t)(VF_SLEW / 2) + 1 && -ec <= (int64_t)(VF_SLEW / 2) + 1, "fade-in stream reaches the target ratio after slew_len frames (C16)");
+    VF_ASSERT(ef <= (int64_t)(VF_SLEW / 2) + 1 && -ef <= (int64_t)(VF_SLEW / 2) + 1, "fade-out stream reaches the SAME target ratio after slew_len frames, in its own scale (C16: no discontinuity across a cross-fade)");
+  } else
+    VF_ASSERT(R.current.step_step.all == 0 && R.fadeout.step_step.all == 0 && R.new_io_ratio == 0, "a slew that moves nothing is dropped for both streams");
+  VF_ASSERT(R.current.step.all == in_cstep && R.fadeout.step.all == in_fstep, "setting up a slew does not jump either stream (C16)");
 #elif VF_OP == 3
   /* stage switch between stage 0 (decimating path, 2x rate) and stage -1 (interpolating path): a resampler built by the real
    * vr_init, brought to the state "slew in progress, step about to cross the octave boundary" (step / step_step / position
@@ -92,6 +114,10 @@ VF_MAIN
   R.default_io_ratio = 0;                 /* ratio already set: */
   R.current.stage_num = 0; enter_new_stage(&R, 0);
   /* about to leave stage 0 downwards: integer part 0, fraction below one half (vr_process: stage_dif = -1) */
+#ifdef VF_STEP      /* position and step concrete (a symbolic read position turns every coefficient fetch into a symbolic index into the
+                     * 40960-entry tables: no verdict in 900 s); the slew increment and the slew length stay symbolic */
+  in_step = VF_STEP; in_at = VF_AT;
+#endif
   VF_ASSUME(in_step > ((int64_t)1 << 28) && in_step < ((int64_t)1 << 31) && in_ss > -((int64_t)1 << 20) && in_ss < ((int64_t)1 << 20) && in_ss != 0);
   VF_ASSUME(in_at >= 0 && in_at < ((int64_t)1 << 32) && in_slew >= 8 && in_slew < 1000);
   R.current.step.all = in_step; R.current.step_step.all = in_ss; R.current.at.all = in_at;
